@@ -36,7 +36,7 @@ class C20(Prop):
     id = 'C20'
     struct_inputs = False          # explanations are keyed by variable name
     reparse_histories = False      # explain() also reports on the assertions of earlier parse() calls on the object
-    rule_added = 'A third of the objects have evaluated and explained an earlier recording that shares the time list with the judged one. 10%: every Boolean connective under both polarities over a range (always(not P), eventually(not P), always(P implies r), ... with P = p(x) OP q(y)). In every run 8 (thorough: 320) long traces of 130..400 samples on which a variable occurring 2-3 times toggles around its thresholds (hundreds of separate intervals per occurrence). 20% of the cases put a temporal operator behind two Boolean filters under a range context (it must explain several disjoint intervals). 12%: a named sub-specification referenced from several places of one assertion (modular specification). 6%: rise/fall over a compound operand behind a window that starts at b >= 1.'
+    rule_added = '2%: finite samples of 1e308 whose predicate arithmetic overflows to +-inf (verdict exactly -inf at 0, caused by the data). A third of the objects have evaluated and explained an earlier recording that shares the time list with the judged one. 10%: every Boolean connective under both polarities over a range (always(not P), eventually(not P), always(P implies r), ... with P = p(x) OP q(y)). In every run 8 (thorough: 320) long traces of 130..400 samples on which a variable occurring 2-3 times toggles around its thresholds (hundreds of separate intervals per occurrence). 20% of the cases put a temporal operator behind two Boolean filters under a range context (it must explain several disjoint intervals). 12%: a named sub-specification referenced from several places of one assertion (modular specification). 6%: rise/fall over a compound operand behind a window that starts at b >= 1.'
     rule = ('random formulas of the fragment the explainer supports (no since/until; arithmetic, predicates, Boolean, '
             'rise/fall, prev/next, bounded and unbounded once/historically/eventually/always; depth<=4; variables '
             'occurring several times) x traces of 2..6 samples on StlDiscreteTimeOfflineSpecification: evaluate(); if '
@@ -286,8 +286,33 @@ class C20(Prop):
         data = dict((k, [rng.choice(vals) for _ in range(n)]) for k in names)
         return {'formula': f, 'data': data}
 
+    def gen_overflow(self, rng):
+        """Finite but huge samples (1e308): the arithmetic of a predicate overflows to +-inf, so the verdict at 0 is
+        exactly -inf although it is caused by the data - the explanation still has to name it."""
+        N, V, C = lang.N, lang.V, lang.C
+        n = rng.randint(3, 7)
+        k = rng.randrange(n)
+        c0 = rng.choice([100.0, 5.0])
+        data = {'x': [rng.choice([1.0, 2.0, -1.0]) for _ in range(n)], 'y': [rng.choice([1.0, 0.0, 3.0]) for _ in range(n)]}
+        r = rng.random()
+        if r < 0.35:
+            f = N('always', N('leq', N('add', V('x'), V('y')), C(c0)))
+            data['x'][k] = data['y'][k] = 1e308
+        elif r < 0.6:
+            f = N('always', N('leq', N('mul', C(10.0), V('x')), C(c0)))
+            data['x'][k] = 1e308
+        elif r < 0.8:
+            f = N('not', N('eventually', N('geq', N('sub', V('x'), V('y')), C(c0))))
+            data['x'][k], data['y'][k] = 1e308, -1e308
+        else:
+            f = N('and', N('always', N('geq', N('mul', V('x'), C(10.0)), C(-c0))), N('geq', V('y'), C(-5.0)))
+            data['x'][k] = -1e308
+        return {'formula': f, 'data': data, 'overflow': True}
+
     def gen(self, rng, ctx):
         r = rng.random()
+        if r < 0.02:
+            return self.gen_overflow(rng)
         if r < 0.06:
             return self.gen_edge(rng)
         if r > 0.9:
